@@ -455,10 +455,18 @@ func (self *Analyzer) functionLiteral(node pAst.FunctionLiteralExpression) ast.A
 		node.Span(),
 		pAst.FN_MODIFIER_NONE,
 	)
+	// The lambda is its own function context: `return` refers to it and the loops of the enclosing function
+	// cannot be controlled from inside of it.
+	prevFunction := self.currentModule.CurrentFunction
+	prevLoopDepth := self.currentModule.LoopDepth
 	self.currentModule.CurrentFunction = &moduleFn
+	self.currentModule.LoopDepth = 0
 
 	// analyze body
 	analyzedBlock := self.block(node.Body, false)
+
+	self.currentModule.CurrentFunction = prevFunction
+	self.currentModule.LoopDepth = prevLoopDepth
 
 	// analyze return type
 	if err := self.TypeCheck(analyzedBlock.Type(), fnReturntype, TypeCheckOptions{
